@@ -12,6 +12,7 @@ pub mod c05;
 pub mod c06;
 pub mod c09;
 pub mod c10;
+pub mod c19;
 pub mod cyc;
 pub mod value;
 
